@@ -194,6 +194,19 @@ func (e *c12Env) run(c c12Case) (obs, bad string) {
 		text, from string
 	}
 	var keptErrs []keptErr
+	type heldBytes struct {
+		from      string
+		b, before []byte
+	}
+	var held []heldBytes
+	heldChanged := func() string {
+		for _, h := range held {
+			if !bytes.Equal(h.b, h.before) {
+				return fmt.Sprintf("the bytes %s returned (%x) were kept by the caller untouched and read %x after later calls: the result shares memory with the library", h.from, h.before, h.b)
+			}
+		}
+		return ""
+	}
 	keepErr := func(from string, err error) error {
 		if err != nil {
 			keptErrs = append(keptErrs, keptErr{err, errText(err), from})
@@ -460,6 +473,15 @@ func (e *c12Env) run(c c12Case) (obs, bad string) {
 						results = append(results, fmt.Sprintf("%x", keep))
 					}
 				}
+				// ... and a result the caller merely KEEPS (say as a field of an OCRA input it builds with the helpers) must
+				// read the same after every later call of any kind, including the other helpers
+				for _, fn := range fns {
+					b := fn.f()
+					held = append(held, heldBytes{fn.name, b, clone(b)})
+					if h := heldChanged(); h != "" {
+						panic("VERIF-C12: " + h)
+					}
+				}
 			case "HexInputToOCRA":
 				hx, err := otp.HexInputToOCRA("0000000000000001", "3132333435363738", "", "abcd", "")
 				if err == nil {
@@ -467,6 +489,17 @@ func (e *c12Env) run(c c12Case) (obs, bad string) {
 				}
 				hx2, _ := otp.HexInputToOCRA("0000000000000001", "3132333435363738", "", "abcd", "")
 				results = append(results, fmt.Sprintf("%x%x", hx2.Counter, hx2.Challenge))
+				// an input built by the helper from SHORT texts (padded by the library) and kept for later calls
+				if hx3, err := otp.HexInputToOCRA("1", "3132333435363738", "", "abcd", "132d0b6"); err == nil {
+					for _, f := range []struct {
+						n string
+						b []byte
+					}{{"HexInputToOCRA (counter)", hx3.Counter}, {"HexInputToOCRA (challenge)", hx3.Challenge}, {"HexInputToOCRA (session)", hx3.SessionInfo}, {"HexInputToOCRA (timestamp)", hx3.Timestamp}} {
+						if len(f.b) > 0 {
+							held = append(held, heldBytes{f.n, f.b, clone(f.b)})
+						}
+					}
+				}
 			}
 		})
 	}
@@ -519,6 +552,9 @@ func (e *c12Env) run(c c12Case) (obs, bad string) {
 			return when + ": suite registry modified"
 		}
 		if ch := retainedChanged(kept); ch != "" {
+			return when + ": " + ch
+		}
+		if ch := heldChanged(); ch != "" {
 			return when + ": " + ch
 		}
 		return ""
